@@ -77,21 +77,20 @@ func factsFor(S ssa.Value, b *ssa.BasicBlock) boundFacts {
 		if !ok || len(d.Succs) != 2 || d.Succs[0] == d.Succs[1] {
 			continue
 		}
+		// The branch outcome is known at b only if exactly one successor of d
+		// dominates b through an edge that is that successor's only way in.
 		var branch bool
+		s0 := d.Succs[0].Dominates(b) && len(d.Succs[0].Preds) == 1
+		s1 := d.Succs[1].Dominates(b) && len(d.Succs[1].Preds) == 1
 		switch {
-		case d.Succs[0] == child || (d.Succs[0].Dominates(b) && len(d.Succs[0].Preds) == 1):
+		case s0 && !s1:
 			branch = true
-		case d.Succs[1] == child || (d.Succs[1].Dominates(b) && len(d.Succs[1].Preds) == 1):
+		case s1 && !s0:
 			branch = false
 		default:
 			continue
 		}
-		if child != d.Succs[0] && child != d.Succs[1] {
-			// child is reached from both sides (join): no information
-			if !(d.Succs[0].Dominates(b) != d.Succs[1].Dominates(b)) {
-				continue
-			}
-		}
+		_ = child
 		bo, ok := ifi.Cond.(*ssa.BinOp)
 		if !ok {
 			continue
